@@ -165,6 +165,16 @@ def _bounds_ok(t, x):
         return False
     if hi["b"] == "lt" and not x < hi["v"]:
         return False
+    # bounds given in tenths (Semantics!Ge10 ...): fractional bounds, compared exactly on integers
+    x10 = x * 10
+    if lo["b"] == "ge10" and not x10 >= lo["v"]:
+        return False
+    if lo["b"] == "gt10" and not x10 > lo["v"]:
+        return False
+    if hi["b"] == "le10" and not x10 <= hi["v"]:
+        return False
+    if hi["b"] == "lt10" and not x10 < hi["v"]:
+        return False
     return True
 
 
@@ -465,6 +475,12 @@ def norm_path(path, schema):
 def _num_bounds_js(t, openapi):
     out = {}
     lo, hi = t["lo"], t["hi"]
+    if lo["b"].endswith("10") or hi["b"].endswith("10"):
+        # bounds in tenths: the same keywords with the fractional value
+        def val(b):
+            return b["v"] / 10 if b["b"].endswith("10") else b["v"]
+        t = dict(t, lo={"b": lo["b"].replace("10", ""), "v": val(lo)}, hi={"b": hi["b"].replace("10", ""), "v": val(hi)})
+        lo, hi = t["lo"], t["hi"]
     if lo["b"] == "ge":
         out["minimum"] = lo["v"]
     elif lo["b"] == "gt":
@@ -658,6 +674,8 @@ class _Cue:
             parts = [base]
             lo, hi = t["lo"], t["hi"]
             op = {"ge": ">=", "gt": ">", "le": "<=", "lt": "<"}
+            if lo["b"].endswith("10") or hi["b"].endswith("10"):
+                raise NotExpressible("cue: fractional bound on a typed number (cog's CUE input parses integer bounds with ParseInt)")
             if lo["b"] != "none":
                 parts.append("%s%d" % (op[lo["b"]], lo["v"]))
             if hi["b"] != "none":
